@@ -6,6 +6,7 @@
 import Proofs.C17_Lemmas
 import Proofs.C17_Object
 import Proofs.C17_Pairing
+import Proofs.C17_Source
 import Mathlib.Algebra.Order.Ring.Abs
 
 namespace Atomman.C17
@@ -1184,5 +1185,353 @@ example : (⟨⟨⟨4, 0, 0⟩, ⟨2, 4, 0⟩, ⟨0, 0, 4⟩⟩, true, true, fal
 /-- ... and a decided pair through the boundary of the same tilted cell satisfies the hypothesis. -/
 example : UniqueImage (⟨⟨⟨4, 0, 0⟩, ⟨2, 4, 0⟩, ⟨0, 0, 4⟩⟩, true, true, false⟩ : Cell ℚ) ⟨0, 0, 0⟩ ⟨3, 3, 0⟩ :=
   ⟨(0, -1, 0), by decide +kernel, by decide +kernel⟩
+
+/-! ## round 6: whole entry points, refusals (exactly when), order / frame independence, end-to-end statements -/
+
+set_option linter.unusedSectionVars false
+
+/-! ### displacement() as a whole -/
+
+/-- **displacementCall_accepts_iff.** -/
+theorem displacementCall_accepts_iff (n0 n1 : Nat) (c0 c1 : Cell K) (ref : BoxRef) (pos0 pos1 : Nat → V3 K) :
+    (∃ d, displacementCall n0 n1 c0 c1 ref pos0 pos1 = .ok d) ↔ (n0 = n1 ∧ ref ≠ .other) := by
+  unfold displacementCall
+  by_cases h : n0 = n1 <;> cases ref <;> simp [h]
+
+theorem displacementCall_refusal_is_value (n0 n1 : Nat) (c0 c1 : Cell K) (ref : BoxRef) (pos0 pos1 : Nat → V3 K) (e : NbrErr)
+    (h : displacementCall n0 n1 c0 c1 ref pos0 pos1 = .error e) : e = .value ∧ (n0 ≠ n1 ∨ ref = .other) := by
+  unfold displacementCall at h
+  by_cases hn : n0 = n1 <;> cases ref <;> simp [hn] at h <;> simp [← h, hn]
+
+theorem displacementCall_values (n : Nat) (c0 c1 : Cell K) (pos0 pos1 : Nat → V3 K) :
+    displacementCall n n c0 c1 .final pos0 pos1 = .ok (displacement c1 pos0 pos1) ∧
+    displacementCall n n c0 c1 .initial pos0 pos1 = .ok (displacement c0 pos0 pos1) ∧
+    displacementCall n n c0 c1 .none pos0 pos1 = .ok (fun i => pos1 i - pos0 i) := by
+  simp [displacementCall]
+
+/-- **displacementCall_is_imposed** (end to end). -/
+theorem displacementCall_is_imposed (n : Nat) (c0 c1 : Cell K) (pos0 pos1 u : Nat → V3 K) (s : Nat → Shift)
+    (hs : ∀ i < n, s i ∈ cands c1.px c1.py c1.pz)
+    (hu : ∀ i < n, shiftBy c1.vects (pos1 i - pos0 i) (s i) = u i)
+    (hmin : ∀ i < n, ∀ t ∈ cands c1.px c1.py c1.pz, shiftBy c1.vects (pos1 i - pos0 i) t = u i ∨
+      V3.normSq (u i) < V3.normSq (shiftBy c1.vects (pos1 i - pos0 i) t)) :
+    ∃ d, displacementCall n n c0 c1 .final pos0 pos1 = .ok d ∧ ∀ i < n, d i = u i := by
+  refine ⟨displacement c1 pos0 pos1, by simp [displacementCall], fun i hi => ?_⟩
+  exact displacement_is_imposed c1 pos0 pos1 i (u i) (s i) (hs i hi) (hu i hi) (hmin i hi)
+
+/-! ### refusals of the neighbour block and of the p-vector broadcasting: exactly when -/
+
+theorem pickNeighbors_refuses_iff {L : Type} (n c a : Option L) :
+    (pickNeighbors n c a = .error .assert ↔ (n.isSome ∧ c.isSome)) ∧
+    (pickNeighbors n c a = .error .value ↔ (n = none ∧ c = none ∧ a = none)) ∧
+    ((∃ l, pickNeighbors n c a = .ok l) ↔ ((n.isSome ∧ c = none) ∨ (n = none ∧ (c.isSome ∨ a.isSome)))) := by
+  cases n <;> cases c <;> cases a <;> simp [pickNeighbors]
+
+theorem dispatchP_refuses_iff (n : Nat) (arg : PArg K) :
+    dispatchP n arg = none ↔ ∃ pss, arg = .nested pss ∧ pss.length ≠ 1 ∧ pss.length ≠ n := by
+  cases arg with
+  | flat ps =>
+    simp only [dispatchP]
+    split_ifs <;> simp
+  | nested pss =>
+    simp only [dispatchP]
+    split_ifs with h1 h2 <;> simp_all
+
+theorem setTheta_accepts_iff (o : SObj K) (v c : K) :
+    (o.setTheta v c).inp.theta = (if 0 < v ∧ v ≤ 180 then v else o.inp.theta) ∧
+    (o.setTheta v c).inp.cosT = (if 0 < v ∧ v ≤ 180 then c else o.inp.cosT) ∧
+    (o.setTheta v c).cache = o.cache := by
+  unfold SObj.setTheta
+  simp only [Nat.cast_ofNat]
+  by_cases h : v ≤ 180 ∧ 0 < v
+  · have h' : 0 < v ∧ v ≤ 180 := ⟨h.2, h.1⟩
+    rw [if_pos h, if_pos h', if_pos h']
+    exact ⟨rfl, rfl, rfl⟩
+  · have h' : ¬ (0 < v ∧ v ≤ 180) := fun hh => h ⟨hh.2, hh.1⟩
+    rw [if_neg h, if_neg h', if_neg h']
+    exact ⟨rfl, rfl, rfl⟩
+
+/-! ### strain / rotation: uniqueness of the decomposition -/
+
+theorem strain_rotation_unique (G S A : M3 K) (hS : S.transpose = S) (hA : A.transpose = subM zeroM A)
+    (h : addM S A = subM M3.one G) : S = strain G ∧ A = rotation G := by
+  simp only [M3.ext_iff, V3.ext_iff, M3.transpose, subM, addM, zeroM, M3.one, sub_x, sub_y, sub_z, add_x, add_y, add_z,
+    zero3_x, zero3_y, zero3_z] at hS hA h
+  obtain ⟨⟨s1, s2, s3⟩, ⟨s4, s5, s6⟩, ⟨s7, s8, s9⟩⟩ := hS
+  obtain ⟨⟨a1, a2, a3⟩, ⟨a4, a5, a6⟩, ⟨a7, a8, a9⟩⟩ := hA
+  obtain ⟨⟨h1, h2, h3⟩, ⟨h4, h5, h6⟩, ⟨h7, h8, h9⟩⟩ := h
+  constructor <;> ext <;> simp [strain, rotation, half, M3.one, M3.row, V3.get] <;> linarith
+
+/-- compatible field: zero Nye tensor -/
+theorem nyeOfGrad_compatible (g : Nat → Nat → Nat → K) (h : ∀ x y z, g x y z = g z y x) : Gen.nyeOfGrad g = zeroM := by
+  simp only [Gen.nyeOfGrad, zeroM, zero3]
+  ext <;> simp only [] <;> rw [sub_eq_zero] <;> exact h _ _ _
+
+
+section sobj
+variable (mag : V3 K → K) (big : K)
+
+theorem computeG_const (a : SIn K) (pv : Nat → List (V3 K)) (X : M3 K)
+    (hG : ∀ i < a.n, solveG mag a.cosT big (pv i) (nbrVectors a.cell a.pos (a.nlist i) i) = X) :
+    a.computeG mag big pv = List.replicate a.n X := by
+  unfold SIn.computeG
+  rw [List.eq_replicate_iff]
+  refine ⟨by simp, fun b hb => ?_⟩
+  obtain ⟨i, hi, rfl⟩ := List.mem_map.mp hb
+  exact hG i (List.mem_range.mp hi)
+
+theorem computeNye_const (a : SIn K) (X : M3 K) (hnl : ∀ i < a.n, ∀ j ∈ a.nlist i, j < a.n) :
+    a.computeNye (List.replicate a.n X) = List.replicate a.n zeroM := by
+  unfold SIn.computeNye
+  rw [List.eq_replicate_iff]
+  refine ⟨by simp, fun b hb => ?_⟩
+  obtain ⟨i, hi, rfl⟩ := List.mem_map.mp hb
+  have hi' := List.mem_range.mp hi
+  apply nye_zero
+  intro j hj
+  have hj' := hnl i hi' j hj
+  simp [List.getD_eq_getElem?_getD, hi', hj']
+
+/-- **SObj.api_constant_G** -/
+theorem SObj.api_constant_G (a : SIn K) (pv : Nat → List (V3 K)) (hp : a.pvec = some pv) (X : M3 K)
+    (hG : ∀ i < a.n, solveG mag a.cosT big (pv i) (nbrVectors a.cell a.pos (a.nlist i) i) = X)
+    (hnl : ∀ i < a.n, ∀ j ∈ a.nlist i, j < a.n) :
+    ((SObj.fresh a).reads mag big [.G, .strain, .rotation, .inv1, .inv2, .inv3, .angvel2, .nye]).2 =
+      [some (.mats (List.replicate a.n X)), some (.mats (List.replicate a.n (strain X))),
+       some (.mats (List.replicate a.n (rotation X))), some (.nums (List.replicate a.n (invariant1 (strain X)))),
+       some (.nums (List.replicate a.n (invariant2 (strain X)))), some (.nums (List.replicate a.n (invariant3 (strain X)))),
+       some (.nums (List.replicate a.n (angularVelocitySq (rotation X)))), some (.mats (List.replicate a.n zeroM))] := by
+  rw [(SObj.reads_coherent mag big _ _ (SObj.fresh_coherent mag big a)).1]
+  have hg : a.valG mag big = some (.mats (List.replicate a.n X)) := by
+    simp only [SIn.valG, hp, Option.map_some, computeG_const mag big a pv X hG]
+  simp only [List.map_cons, List.map_nil, SIn.val, SIn.valStrain, SIn.valRotation, hg, Option.map_some, fStrain, fRotation,
+    fInv1, fInv2, fInv3, fAngvel2, SIn.fNye, List.map_replicate, SObj.fresh, computeNye_const a X hnl]
+
+end sobj
+
+/-- slip vector order independence -/
+theorem slipVector_perm (c : Cell K) (pos0 pos1 : Nat → V3 K) (l l' : List Nat) (h : l.Perm l') (i : Nat) :
+    slipVector c pos0 pos1 l i = slipVector c pos0 pos1 l' i := by
+  unfold slipVector
+  apply h.foldl_eq'
+  intro x _ y _ z
+  unfold slipStep
+  ext <;> simp <;> ring
+
+theorem solveNormal_perm (l l' : List (V3 K × V3 K)) (h : l.Perm l') : solveNormal l = solveNormal l' := by
+  unfold solveNormal qtq qtp
+  rw [h.foldl_eq' (fun x _ y _ z => ?_) zeroM, h.foldl_eq' (fun x _ y _ z => ?_) zeroM]
+  · ext <;> simp [addM] <;> ring
+  · ext <;> simp [addM] <;> ring
+
+theorem nye_perm (c : Cell K) (pos : Nat → V3 K) (G : Nat → M3 K) (l l' : List Nat) (h : l.Perm l') (i : Nat) :
+    nye c pos G l i = nye c pos G l' i := by
+  have key : ∀ (f : M3 K → V3 K) (m : List Nat),
+      ((m.map fun j => subM (G j) (G i)).map f).zip (nbrVectors c pos m i)
+        = m.map fun j => (f (subM (G j) (G i)), c.dv (pos i) (pos j)) := by
+    intro f m
+    induction m with
+    | nil => rfl
+    | cons a m ih => simp only [List.map_cons, nbrVectors, List.zip_cons_cons] at ih ⊢; rw [ih]
+  unfold nye gradG
+  rw [key, key, key, key, key, key]
+  rw [solveNormal_perm _ _ (h.map _), solveNormal_perm _ _ (h.map _), solveNormal_perm _ _ (h.map _)]
+
+/-- end to end: slip_vector(system_0, system_1, cutoff=) for a rigid slip -/
+theorem slipVectorCall_rigid (c : Cell K) (pos0 pos1 : Nat → V3 K) (neighbors cutoff attr : Option (Nat → List Nat))
+    (nl : Nat → List Nat) (hsrc : pickNeighbors neighbors cutoff attr = .ok nl) (i : Nat)
+    (side : Nat → Bool) (uA uB : V3 K)
+    (hst : ∀ j ∈ nl i, c.dv (pos1 i) (pos1 j)
+      = c.dv (pos0 i) (pos0 j) + (twoValued side uA uB j - twoValued side uA uB i)) :
+    slipVectorCall c pos0 pos1 neighbors cutoff attr i
+      = .ok (V3.smul (((nl i).countP (fun j => side j != side i) : Nat) : K)
+          (twoValued side uA uB i - otherHalf side uA uB i)) := by
+  unfold slipVectorCall
+  rw [hsrc]
+  simp only [slip_rigid c pos0 pos1 (nl i) i side uA uB hst]
+
+/-- end to end: DifferentialDisplacement(...).solve on a displaced copy -/
+theorem DObj.api_differences (o : DObj K) (a : DArgs K) (c : Cell K) (n : Nat) (pos0 u : Nat → V3 K)
+    (h0 : a.sys0.getD o.sys0 = ⟨c, n, pos0⟩) (h1 : a.sys1.getD o.sys1 = ⟨c, n, fun k => pos0 k + u k⟩)
+    (h : (o.solve a).2 = none)
+    (hst : ∀ nl, (o.solve a).1.nlist = some nl → ∀ i nbrs, nl[i]? = some nbrs → ∀ j ∈ nbrs,
+      c.dv (pos0 i + u i) (pos0 j + u j) = c.dv (pos0 i) (pos0 j) + (u j - u i)) :
+    ∃ nl, (o.solve a).1.nlist = some nl ∧
+      (o.solve a).1.dd = some ((nl.zipIdx).flatMap fun (e : List Nat × Nat) => e.1.map fun j => u j - u e.2) := by
+  obtain ⟨nl, hnl, hdd, hs0, hs1⟩ := DObj.solve_current o a h
+  refine ⟨nl, hnl, ?_⟩
+  rw [hdd, hs0, hs1, h0, h1]
+  simp only
+  rw [ddvectors_are_differences c pos0 u nl (hst nl hnl)]
+
+/-- disregistry refuses exactly when -/
+theorem disregistry_refuses_iff (atol rtol : K) (atoms : List (K × K × V3 K)) (midy : K) :
+    disregistry atol rtol atoms midy = none ↔
+      ((unique (atoms.map (·.2.1))).filter fun y => midy < y) = [] ∨
+      ((unique (atoms.map (·.2.1))).filter fun y => y < midy) = [] ∨
+      ∃ ya yb, minL ((unique (atoms.map (·.2.1))).filter fun y => midy < y) = some ya ∧
+        maxL ((unique (atoms.map (·.2.1))).filter fun y => y < midy) = some yb ∧ isclose atol rtol ya yb = true := by
+  unfold disregistry
+  simp only
+  generalize ((unique (atoms.map (·.2.1))).filter fun y => midy < y) = A
+  generalize ((unique (atoms.map (·.2.1))).filter fun y => y < midy) = B
+  cases A with
+  | nil => simp [minL]
+  | cons a A =>
+    cases B with
+    | nil => simp [minL, maxL]
+    | cons b B =>
+      simp only [minL, maxL]
+      split_ifs with hc <;> simp [hc]
+
+/-! ### invariants do not depend on the Cartesian frame -/
+theorem det_mul3 (A B : M3 K) : M3.det (M3.mul A B) = M3.det A * M3.det B := by
+  simp only [M3.det, M3.mul, M3.vecMul, V3.dot, V3.cross]; ring
+
+theorem invariant3_eq_det (s : M3 K) : invariant3 s = M3.det s := by
+  simp only [invariant3, M3.det, V3.dot, V3.cross]; ring
+
+theorem invariant1_frame (R s : M3 K) (hR : M3.mul R.transpose R = M3.one) :
+    invariant1 (M3.mul (M3.mul R s) R.transpose) = invariant1 s := by
+  simp only [M3.ext_iff, V3.ext_iff, M3.mul, M3.vecMul, M3.transpose, M3.one] at hR
+  obtain ⟨⟨h00, h01, h02⟩, ⟨h10, h11, h12⟩, ⟨h20, h21, h22⟩⟩ := hR
+  simp only [invariant1, M3.mul, M3.vecMul, M3.transpose]
+  linear_combination s.r0.x * h00 + s.r0.y * h01 + s.r0.z * h02 + s.r1.x * h10 + s.r1.y * h11 + s.r1.z * h12
+    + s.r2.x * h20 + s.r2.y * h21 + s.r2.z * h22
+
+theorem invariant2_eq (s : M3 K) : invariant2 s = (invariant1 s ^ 2 - invariant1 (M3.mul s s)) / 2 := by
+  simp only [invariant1, invariant2, M3.mul, M3.vecMul]; ring
+
+/-- **invariants_frame.** -/
+theorem invariants_frame (R s : M3 K) (hR : M3.mul R.transpose R = M3.one) :
+    invariant1 (M3.mul (M3.mul R s) R.transpose) = invariant1 s ∧
+    invariant2 (M3.mul (M3.mul R s) R.transpose) = invariant2 s ∧
+    invariant3 (M3.mul (M3.mul R s) R.transpose) = invariant3 s := by
+  refine ⟨invariant1_frame R s hR, ?_, ?_⟩
+  · have hsq : M3.mul (M3.mul (M3.mul R s) R.transpose) (M3.mul (M3.mul R s) R.transpose)
+        = M3.mul (M3.mul R (M3.mul s s)) R.transpose := by
+      rw [mul_assoc3 (M3.mul R s) R.transpose, ← mul_assoc3 R.transpose (M3.mul R s), ← mul_assoc3 R.transpose R s, hR,
+        one_mul3, ← mul_assoc3 (M3.mul R s) s, mul_assoc3 R s s]
+    rw [invariant2_eq, invariant2_eq, hsq, invariant1_frame R s hR, invariant1_frame R _ hR]
+  · rw [invariant3_eq_det, invariant3_eq_det, det_mul3, det_mul3]
+    have h : M3.det R.transpose * M3.det R = 1 := by
+      rw [← det_mul3, hR]; simp [M3.det, M3.one, V3.dot, V3.cross]
+    rw [det_transpose] at h ⊢
+    linear_combination (M3.det s) * h
+
+
+section sobj2
+variable (mag : V3 K → K) (big : K)
+
+/-- **SObj.api_homogeneous** (end to end, the user-level statement of the homogeneous clause).  A `Strain` object
+    built for a system of `n` atoms whose current neighbour vectors are the images `q = F p` of the reference vectors
+    (pairing hypothesis of `solveG_homogeneous` at every atom, full rank, list entries inside the system) answers the
+    reads `G, strain, rotation, invariant1-3, angularvelocity², nye` — in this or any other order, see
+    `SObj.reads_coherent` — with `F⁻ᵀ` at EVERY atom, the strain / rotation / invariants that follow from it, and a
+    vanishing Nye tensor. -/
+theorem SObj.api_homogeneous (a : SIn K) (pv : Nat → List (V3 K)) (hp : a.pvec = some pv) (F : M3 K) (hF : M3.det F ≠ 0)
+    (ks : Nat → List Nat)
+    (hlen : ∀ i < a.n, (a.nlist i).length = (ks i).length)
+    (hbest : ∀ i < a.n, ∀ e ∈ (nbrVectors a.cell a.pos (a.nlist i) i).zip (ks i), IsBest mag a.cosT (pv i) e.1 e.2)
+    (hnd : ∀ i < a.n, (ks i).Nodup)
+    (hq : ∀ i < a.n, ∀ e ∈ (nbrVectors a.cell a.pos (a.nlist i) i).zip (ks i), ∀ p, (pv i)[e.2]? = some p →
+      e.1 = M3.mulVec F p)
+    (hne : ∀ i < a.n, a.nlist i ≠ [])
+    (hrank : ∀ i < a.n, M3.det (qtqV (nbrVectors a.cell a.pos (a.nlist i) i)) ≠ 0)
+    (hnl : ∀ i < a.n, ∀ j ∈ a.nlist i, j < a.n) :
+    ((SObj.fresh a).reads mag big [.G, .strain, .rotation, .inv1, .inv2, .inv3, .angvel2, .nye]).2 =
+      [some (.mats (List.replicate a.n (M3.inv F.transpose))),
+       some (.mats (List.replicate a.n (strain (M3.inv F.transpose)))),
+       some (.mats (List.replicate a.n (rotation (M3.inv F.transpose)))),
+       some (.nums (List.replicate a.n (invariant1 (strain (M3.inv F.transpose))))),
+       some (.nums (List.replicate a.n (invariant2 (strain (M3.inv F.transpose))))),
+       some (.nums (List.replicate a.n (invariant3 (strain (M3.inv F.transpose))))),
+       some (.nums (List.replicate a.n (angularVelocitySq (rotation (M3.inv F.transpose))))),
+       some (.mats (List.replicate a.n zeroM))] := by
+  apply SObj.api_constant_G mag big a pv hp _ _ hnl
+  intro i hi
+  apply solveG_homogeneous mag a.cosT big _ _ (ks i) F hF _ (hbest i hi) (hnd i hi) (hq i hi) _ (hrank i hi)
+  · simpa [nbrVectors] using hlen i hi
+  · simpa [nbrVectors] using hne i hi
+
+end sobj2
+
+/-- the Nye tensor of the MODEL (`nyeOf`, three fitted gradients) is the Levi-Civita contraction `-ε_ijm ∂_m G_ik`
+    written in `nye_tensor.py` (`Gen.nyeEinsum`, regenerated from the `eps` table and the einsum string). -/
+theorem nyeOf_is_leviCivita_contraction (g : M3 K × M3 K × M3 K) :
+    nyeOf g = Gen.nyeEinsum (Gen.gradOf fun x => if x = 0 then g.1 else if x = 1 then g.2.1 else g.2.2) := by
+  rw [← gen_nyeOf_eq_model, Gen.nyeOf, gen_nye_c_eq_einsum]
+
+/-- **nye_compatible.**  A compatible field has no Nye tensor: when the fitted gradient `∂_z G_xy` is symmetric in the
+    first index of `G` and the direction of differentiation (`G_xy = ∂_x φ_y` for some field `φ`: second derivatives
+    commute) the Nye tensor vanishes — the general reason behind `nye_zero` (constant `G`). -/
+theorem nye_compatible (g : M3 K × M3 K × M3 K)
+    (h : ∀ x y z, Gen.gradOf (fun x => if x = 0 then g.1 else if x = 1 then g.2.1 else g.2.2) x y z
+      = Gen.gradOf (fun x => if x = 0 then g.1 else if x = 1 then g.2.1 else g.2.2) z y x) :
+    nyeOf g = zeroM := by
+  rw [← gen_nyeOf_eq_model, Gen.nyeOf]
+  exact nyeOfGrad_compatible _ h
+
+/-! ### non-vacuity of the theorems above (ℚ) -/
+
+def okAt (r : Except NbrErr (Nat → V3 ℚ)) (i : Nat) : Option (V3 ℚ) :=
+  match r with
+  | .ok d => some (d i)
+  | .error _ => none
+
+/-- `displacementCall`: the accepted forms evaluated on the boundary-crossing atom of `displacement_is_imposed`'s example
+    (`'final'` / `'initial'` undo the box vector, `None` does not), both refusals, and the refusal ORDER (a wrong atom
+    count is reported also for an unknown `box_reference`). -/
+example :
+    let pos0 : Nat → V3 ℚ := fun _ => ⟨1/2, 1, 1⟩
+    let pos1 : Nat → V3 ℚ := fun _ => ⟨1/2 - 1 + 4, 1 + 1/4, 1⟩
+    let free : Cell ℚ := ⟨exV, false, true, true⟩
+    okAt (displacementCall 1 1 free exCell .final pos0 pos1) 0 = some ⟨-1, 1/4, 0⟩ ∧
+    okAt (displacementCall 1 1 free exCell .initial pos0 pos1) 0 = some ⟨3, 1/4, 0⟩ ∧
+    okAt (displacementCall 1 1 free exCell .none pos0 pos1) 0 = some ⟨3, 1/4, 0⟩ ∧
+    okAt (displacementCall 1 1 free exCell .other pos0 pos1) 0 = none ∧
+    okAt (displacementCall 1 2 free exCell .final pos0 pos1) 0 = none := by
+  decide +kernel
+
+/-- hypotheses and conclusion of `SObj.api_constant_G` / `api_homogeneous`: a four-atom cluster (every atom sees the three
+    others: three independent vectors each) under the shear + stretch `apiF`; reference = the undeformed cluster. -/
+def apiCell : Cell ℚ := ⟨⟨⟨10, 0, 0⟩, ⟨0, 10, 0⟩, ⟨0, 0, 10⟩⟩, false, false, false⟩
+def apiRef : Nat → V3 ℚ
+  | 0 => ⟨0, 0, 0⟩ | 1 => ⟨1, 0, 0⟩ | 2 => ⟨0, 1, 0⟩ | _ => ⟨0, 0, 1⟩
+def apiF : M3 ℚ := ⟨⟨11/10, 1/10, 0⟩, ⟨0, 1, 0⟩, ⟨0, 1/20, 19/20⟩⟩
+def apiNl : Nat → List Nat := fun i => (List.range 4).filter (· ≠ i)
+def apiMag : V3 ℚ → ℚ := fun v => (V3.normSq v + 1) / 2
+def apiIn : SIn ℚ := ⟨apiCell, 4, fun i => M3.mulVec apiF (apiRef i), apiNl,
+  some (fun i => nbrVectors apiCell apiRef (apiNl i) i), 27, 1/2⟩
+
+example :
+    (∀ i ∈ List.range 4, solveG apiMag apiIn.cosT 10000000000000000 (nbrVectors apiCell apiRef (apiNl i) i)
+        (nbrVectors apiIn.cell apiIn.pos (apiIn.nlist i) i) = M3.inv apiF.transpose) ∧
+    (∀ i ∈ List.range 4, ∀ j ∈ apiIn.nlist i, j < 4) ∧
+    M3.inv apiF.transpose = ⟨⟨10/11, 0, 0⟩, ⟨-1/11, 1, -1/19⟩, ⟨0, 0, 20/19⟩⟩ ∧
+    strain (M3.inv apiF.transpose) = ⟨⟨1/11, 1/22, 0⟩, ⟨1/22, 0, 1/38⟩, ⟨0, 1/38, -1/19⟩⟩ ∧
+    invariant1 (strain (M3.inv apiF.transpose)) = 8/209 := by
+  decide +kernel
+
+/-- `strain_rotation_unique`, `invariants_frame` (3-4-5 rotation of a non-symmetric tensor), `nyeOfGrad_compatible`
+    (a symmetric gradient) and its failure for a non-compatible one. -/
+example :
+    let R : M3 ℚ := ⟨⟨3/5, -4/5, 0⟩, ⟨4/5, 3/5, 0⟩, ⟨0, 0, 1⟩⟩
+    let s : M3 ℚ := ⟨⟨1, 2, 3⟩, ⟨4, 5, 6⟩, ⟨7, 8, 10⟩⟩
+    M3.mul R.transpose R = M3.one ∧ M3.mul (M3.mul R s) R.transpose ≠ s ∧
+    invariant2 (M3.mul (M3.mul R s) R.transpose) = invariant2 s ∧ invariant2 s = -12 ∧ invariant3 s = -3 ∧
+    (let g : Nat → Nat → Nat → ℚ := fun x y z => (((x + 1) * (z + 1) * (y + 2) : Nat) : ℚ)
+     (∀ x ∈ [0, 1, 2], ∀ y ∈ [0, 1, 2], ∀ z ∈ [0, 1, 2], g x y z = g z y x) ∧ Gen.nyeOfGrad g = zeroM) ∧
+    Gen.nyeOfGrad (fun x y z => ((x + 2 * z + y : Nat) : ℚ)) ≠ zeroM := by
+  decide +kernel
+
+/-- `slipVector_perm` / `slipVectorCall_rigid` on the four-atom chain: the slip vector of atom 0 over `[3, 1]` and over
+    `[1, 3]`, through the `cutoff=` source with an attribute present. -/
+example :
+    let pos1 : Nat → V3 ℚ := fun k => exPos0 k + twoValued exSide exUA exUB k
+    slipVector exCell exPos0 pos1 [3, 1] 0 = slipVector exCell exPos0 pos1 [1, 3] 0 ∧
+    (match slipVectorCall exCell exPos0 pos1 none (some fun _ => [3, 1]) (some fun _ => [1]) 0 with
+      | .ok v => v | .error _ => zero3) = V3.smul 1 (exUB - exUA) := by
+  decide +kernel
 
 end Atomman.C17
